@@ -18,7 +18,7 @@ from ..mir import const_int
 from ..prov import derive, index_of
 from ..wrules import model, w1, w5_repr
 
-ANCHOR_RE = [r"model_file_operations::.*::(read|write)_\w+$"]  # typed readers are addressed by computed name
+ANCHOR_RE = [r"model_file_operations::.*::(read|write)_(byte_float4|byte_float42|tangent|half4|half2|byte4|single3|single4|unsigned_short4)$"]  # typed readers are addressed by computed name
 TECHNIQUE = "static analysis: binrw layout rules vs reference; per-arm dispatch facts of the (usage, type) switch nest (callees, Vertex fields touched); callee/generic-argument inventory of the typed readers; derives-from obligations on the seek arguments"
 TRUSTED = ["pv/wire.py binrw model", "spec/layouts.txt (Lumina MdlStructs)", "reference dispatch table embedded in this rule", "rustc nightly MIR"]
 
